@@ -128,4 +128,34 @@ CLAIMS.update({
 CLAIMS["C06"]["suites"] = ["M", "S"]
 CLAIMS["C04"]["suites"] = ["M", "S"]
 
+def c17_setup_checks(seed, tier, cov):
+    """component validation happens at setup: a market named twice among the components, or a component without outstanding
+    shares, must be refused (property text: components must be distinct markets that declare outstanding shares)"""
+    import random
+    from pams.runners import SequentialRunner
+    out = []
+    base = {"simulation": {"markets": ["A", "B", "I"], "agents": [], "sessions": [{"sessionName": 0, "iterationSteps": 1,
+            "withOrderPlacement": True, "withOrderExecution": True, "withPrint": False}]},
+            "A": {"class": "Market", "tickSize": 1.0, "marketPrice": 100.0, "outstandingShares": 100},
+            "B": {"class": "Market", "tickSize": 1.0, "marketPrice": 200.0, "outstandingShares": 300}}
+    import copy
+    for label, comps, patch in [("duplicate-component", ["A", "B", "A"], None), ("duplicate-component", ["B", "B"], None),
+                                ("component-without-outstanding-shares", ["A", "B"], "B")]:
+        cfg = copy.deepcopy(base)
+        cfg["I"] = {"class": "IndexMarket", "tickSize": 1.0, "marketPrice": 100.0, "outstandingShares": 100, "markets": comps}
+        if patch:
+            del cfg[patch]["outstandingShares"]
+        try:
+            r = SequentialRunner(settings=cfg, prng=random.Random(seed))
+            r._setup()
+            out.append({"rule": "components-distinct-with-outstanding-shares", "at": 0,
+                        "detail": {"case": label, "components": comps, "accepted": True}})
+        except (ValueError, AssertionError):
+            pass
+        cov["evaluations"] += 1
+    return out
+
+
+CLAIMS["C17"]["extra_checks"] = c17_setup_checks
+
 NOT_CLAIMED = {}
